@@ -69,7 +69,7 @@ ACC_ROUNDS = 3  # poll_connection_error calls in one poll of server::Connection:
 class C05(Prop):
     id = "C05"
     parallel = False   # engine is timing-sensitive (real Quinn loopback / OS threads parked at hooks): one harness process at a time
-    modules = ["H3.Props.C05"]
+    modules = ["H3.Props.C05", "H3.Lemmas.GenAgreeDgSend"]
     engines = ["cell", "cellmv", "flt5", "hnd5"]
     design_ref = "DESIGN.md section 7, C05; Appendix B.2"
     level_text = ("Lean theorems over a small-step model of the connection error cell (OnceLock cell, AtomicWaker, executor "
@@ -121,7 +121,7 @@ class C05(Prop):
             "cannot decode; a pending read meeting the transport's timeout / close), merged in every order (all merges up to "
             "60, else 60 random; thorough 400) with accept / wait_idle / shutdown / send_request and a second handle that is "
             "healthy or poisoned with another error, judged by H3.Drv.Hnd.verdict; `cell dg`: the datagram handle of "
-            "h3-datagram on the real code (finding D-05g); flt5 histories with a token outside the oracle's alphabet are "
+            "h3-datagram on the real code (it answers the cell's winner: D-05g repaired); flt5 histories with a token outside the oracle's alphabet are "
             "refused (bad:unknown-token), never `ok`; non-trivial = some error was raised and the line is not "
             "bad-op/bad-flow/panic")
     trusted = ["futures_util::task::AtomicWaker and std::sync::OnceLock are linearizable with their documented semantics "
@@ -165,7 +165,7 @@ class C05(Prop):
                    "together is not modelled), close calls and the driver's answers in their order",
                    "the datagram handle (h3-datagram DatagramSender) counts as a handle of C05: it is a ConnectionState "
                    "implementor bound to a request stream id, usable from any task, and writes the connection's error cell "
-                   "through set_conn_error_and_wake like every request handle; its report is judged like theirs (finding D-05g)"]
+                   "through set_conn_error_and_wake like every request handle; its report is judged like theirs (reading R-05c; D-05g, repaired)"]
 
     # ---------------------------------------------------------------- cases
 
@@ -478,10 +478,12 @@ class C05(Prop):
         """The same questions for the sibling crates, whose handles share the connection's `SharedState`, and for the places
         where a `ConnectionError` value is BUILT (a handle that builds one itself can report another error than the cell's).
         Expected, and re-read on every run (anything else is `BROKEN`): h3-datagram and h3-webtransport implement
-        `ConnectionState` with `shared_state` only and `CloseStream` with the default methods; the only direct use of the
-        cell outside h3 is `DatagramSender::handle_send_datagram_error` (`set_conn_error_and_wake`, result dropped), which is
-        also the only place outside `connection_error_creators.rs` that builds a `ConnectionError` — finding D-05g, executed
-        on the real code by the `cell dg` lines."""
+        `ConnectionState` with `shared_state` only and `CloseStream` with the default methods; there is NO direct use of the
+        cell outside h3 (D-05g repaired: `DatagramSender::handle_send_datagram_error` goes through the default
+        `handle_quic_stream_error` like every other handle); the only place outside `connection_error_creators.rs` that builds
+        a `ConnectionError` is the second arm of the `match` on that call's answer in the same function, which is not reachable
+        (`handle_quic_stream_error` answers `StreamError::ConnectionError` to a `ConnectionErrorIncoming`: read on every run by
+        the translator, `dg_send_arms`) — executed on the real code by the `cell dg` lines."""
         res = []
         n_state = n_close = 0
         direct, built = {}, {}
@@ -521,24 +523,26 @@ class C05(Prop):
                         n += 1
                     if n:
                         built[rel] = n
-        want_direct = {("h3-datagram/src/datagram_handler.rs", r"\bset_conn_error(_and_wake)?\s*\("): 1}
+        want_direct = {}
         if direct != want_direct:
             res.append(("broken", "sibling inventory: direct uses of the error cell / waker in the sibling crates are %s, expected "
-                        "only DatagramSender::handle_send_datagram_error (D-05g)" % sorted(direct.items()), {}))
+                        "none (a handle that writes the cell itself can drop its winner: D-05g)" % sorted(direct.items()), {}))
         want_built = {"h3/src/error/connection_error_creators.rs": 7, "h3-datagram/src/datagram_handler.rs": 1}
         got = {k: v for k, v in built.items() if not k.endswith("error/error.rs")}
         if got != want_built:
             res.append(("broken", "sibling inventory: ConnectionError values are built in %s, expected %s (the common conversion, "
-                        "the two *_raw paths used before the connection exists, and the datagram sender: D-05g)"
+                        "the two *_raw paths used before the connection exists, and the unreachable arm of the datagram sender behind "
+                        "handle_quic_stream_error)"
                         % (sorted(got.items()), sorted(want_built.items())), {}))
-        if n_state < 4 or n_close < 2:
+        if n_state < 4 or n_close < 3:
             res.append(("broken", "sibling inventory: found only %d ConnectionState / %d CloseStream implementors in the sibling "
                         "crates (parser out of date?)" % (n_state, n_close), {}))
         if not any(k == "broken" for k, _, _ in res):
             res.append(("note", "sibling inventory: h3-datagram / h3-webtransport: %d ConnectionState implementors (shared_state only), "
-                        "%d CloseStream implementors (default methods); one direct use of the cell outside h3 and one "
-                        "ConnectionError built outside connection_error_creators.rs (7 there), both in "
-                        "DatagramSender::handle_send_datagram_error = finding D-05g (lines `cell dg`)" % (n_state, n_close), {}))
+                        "%d CloseStream implementors (default methods); no direct use of the cell outside h3; one "
+                        "ConnectionError built outside connection_error_creators.rs (7 there): the arm of "
+                        "DatagramSender::handle_send_datagram_error behind an answer handle_quic_stream_error does not give "
+                        "(lines `cell dg`; D-05g repaired)" % (n_state, n_close), {}))
         return res
 
 
